@@ -96,9 +96,9 @@ CLAIMED = {
    note='kvfile (duplicate spill) assumed order-preserving on 8-hex-digit keys; aliasing not modelled (probed)',
    ref='6/C16'),
  'C17': dict(
-   technique='Lean 4 proof (filter = List.filter, dedupe first-of-key + idempotent, unpivot shape/count) + step correspondence + Python-spec oracle + translator tie: the function(s) re-translated from the working tree into the PyLite embedding on every run and proved equal to the model (Tie_filter_process, Tie_deduper: the generators of filter_rows.process_resource and deduplicate.deduper = filter / first-row-of-each-key, by induction through the evaluator loop) + pyeval correspondence (real function vs evaluator of the translated syntax) + Tie_conditions_pv / Tie_conditions_model: old_style_conditions = the model condition oldStyleCond (short-circuit search) on null/bool/int/text cells',
+   technique='Lean 4 proof (filter = List.filter, dedupe first-of-key + idempotent, unpivot shape/count) + step correspondence + Python-spec oracle + translator tie: the function(s) re-translated from the working tree into the PyLite embedding on every run and proved equal to the model (Tie_filter_process, Tie_deduper: the generators of filter_rows.process_resource and deduplicate.deduper = filter / first-row-of-each-key, by induction through the evaluator loop) + pyeval correspondence (real function vs evaluator of the translated syntax) + Tie_conditions_pv / Tie_conditions_model: old_style_conditions = the model condition oldStyleCond (short-circuit search) on null/bool/int/text cells + Tie_unpivot_rows (TieUnpivotModel): the translated row generator of unpivot = unpivotRow of the model on every row, failing exactly when a kept field is missing',
    text='Theorems hold for all tables; the compiled model is compared with the real processors on generated tables and an independent Python specification is checked on the real output.',
-   note='regex via oracle table; Python == across bool/int/Decimal modelled by pyEq; unpivot_rows / old_style_conditions are translated and covered by the pyeval correspondence, tie theorems not yet written; PyLite translator + evaluator are trusted and validated by the pyeval correspondence',
+   note='regex via oracle table; Python == across bool/int/Decimal modelled by pyEq; PyLite translator + evaluator are trusted and validated by the pyeval correspondence',
    ref='6/C17'),
  'C20': dict(
    technique='Lean 4 proof (table state machine: rewrite / append / update=fold of upserts; latest values per key, key uniqueness preserved, truthful flags, histories compose) + sqlhist correspondence + SELECT-after-every-dump oracle on SQLite',
